@@ -1063,7 +1063,11 @@ class CSSSerializer:
             out = Out(self)
             if value.type in ('DIMENSION', 'NUMBER', 'PERCENTAGE'):
                 dim = value.dimension or ''
-                if value.value == 0:
+                number = value.value
+                if isinstance(number, float):
+                    # decide on the number as it is written (six decimals)
+                    number = float('%f' % number)
+                if number == 0:
                     val = '0'
                     if value.dimension in (
                         'cm',
@@ -1076,21 +1080,21 @@ class CSSSerializer:
                         'ex',
                     ):
                         dim = ''
-                elif value.value == int(value.value):
+                elif number == int(number):
                     # cut off after . which is zero anyway
-                    val = str(int(value.value))
-                elif self.prefs.omitLeadingZero and -1 < value.value < 1:
-                    v = self._strip_zeros('%f' % value.value)  # issue #27
+                    val = str(int(number))
+                elif self.prefs.omitLeadingZero and -1 < number < 1:
+                    v = self._strip_zeros('%f' % number)  # issue #27
                     val = v
                     if value._sign == '-':
                         val = v[0] + v[2:]
                     else:
                         val = v[1:]
                 else:
-                    val = self._strip_zeros('%f' % value.value)  # issue #27
+                    val = self._strip_zeros('%f' % number)  # issue #27
 
                 # keep '+' if given
-                if value.value != 0 and value._sign == '+':
+                if number != 0 and value._sign == '+':
                     sign = '+'
                 else:
                     sign = ''
